@@ -10,7 +10,8 @@ BASELINE = "cd /repo && cargo test --workspace --no-fail-fast --offline"
 
 TECH = "contract-based deductive verification: Verus (Z3) discharges requires/ensures/invariant obligations on functions extracted mechanically from /repo on every run"
 NOTE_COMMON = ("Trusted: Verus/Z3/rustc; the std specs in prelude/ (assume_specification / external_body / axioms, listed mechanically in evidence.coverage.trusted_base); "
-               "the rewrite rules of DESIGN.md section 3 (each application counted in evidence); usize = 64 bit. ")
+               "the rewrite rules of DESIGN.md section 3 (each application counted in evidence); usize = 64 bit. "
+               "Verdicts: exit 1 needs a lost proof AND either a failing input found by the bounded oracle or an observable difference from the pinned tree on the oracle universe (DESIGN.md section 8); a lost proof alone is exit 2. ")
 
 # property id -> (claimed?, level text, level note, design ref)
 CHECKS = {}
